@@ -516,6 +516,62 @@ def r11_10(ctx, fx):
                   % (tagged, comps, parked_everywhere, witnesses[:6]))
 
 
+def r11_11(ctx, fx):
+    """a close notice of a connection handler closes only an open stream: in next_event's `shutdown_rx` branch the peer is set to
+    `Closed` only on the `Open` edge of its current state.  The notice can be stale (the user closed the stream, the peer moved on to a
+    new negotiation while the old handler was still shutting down); applied unconditionally it wipes e.g. `Validating` while the
+    HandshakeService still holds the substream - the next handshake event hits debug_assert!(false) / leaves the peer Poisoned."""
+    key = NP + "next_event::{closure#0}"
+    fn = ctx.fn(fx, key, "R11.11")
+    if fn is None:
+        return
+    # the assignments of Closed in next_event itself (not in the handlers it calls) whose peer comes out of the shutdown_rx branch
+    sites = []
+    for n, s_ in fn.aggregates(r"notification::PeerState$", "Closed"):
+        sites.append(n)
+    ctx.anchor("R11.11", "next_event: Closed assigned on a close notice", len(sites), 1, cfg=fx.cfg)
+    open_edges = set()
+    for sw in fn.discr_switches():
+        if sw[2].endswith("notification::PeerState"):
+            for lab in fn.variant_edges(sw, "Open"):
+                if all(lab not in fn.variant_edges(sw, v) for v in list(sw[3]) + list(sw[5]) if v != "Open"):
+                    open_edges.add((sw[0], lab))
+            # `matches!(state, PeerState::Open { .. })` (also as a match guard) lowers to a bool temporary
+            for swn, t, f in matches_tests(fn, sw, "Open"):
+                open_edges.add((swn, t))
+    # only the close-notice branch: sites that do not follow a `mem::replace(&mut state, Poisoned)` (those are the timer arm's)
+    taken = fn.reach([c.node for c in fn.calls(r"mem::replace$")], after=True)
+    sites = [n for n in sites if n not in taken]
+    for i, n in enumerate(sites):
+        ok = bool(open_edges) and n not in fn.reach([fn.entry], cut=open_edges)
+        ctx.ob("R11.11", "next_event/close-notice#%d-applies-only-to-an-Open-peer" % i, ok, site=fn.site(n), cfg=fx.cfg,
+               detail="tests of the peer state for `Open` found: %d" % len(open_edges))
+
+
+def r11_12(ctx, fx):
+    """a finished negotiation is reported for the substream it belongs to: HandshakeService queues results in `ready` keyed by
+    (peer, direction), the same key under which the next substream of that peer is stored.  Every function of the service that removes
+    or replaces the substream stored under a key first purges the not-yet-reported results of that key from `ready` (a `retain` on
+    `self.ready`, directly or through a helper).  Otherwise the handshake of a failed attempt is handed to the user as the handshake of
+    a new substream that has not sent anything yet."""
+    HS = "protocol::notification::negotiation::HandshakeService::"
+    n = 0
+    it = Inter(fx, r"^$", extra_hit=lambda f, node: f.is_term(node) and f.term(node[0])["k"] == "call" and bool(re.search(r"(VecDeque|Vec)(<.*>)?::(retain|pop_front|clear)$", f.call_at(node).name or "")) and ".ready" in f.recv(f.call_at(node)))
+    for key in sorted(fx.find("^" + re.escape(HS) + r"\w+$")):
+        fn = fx.fn(key)
+        touch = [c for c in fn.calls(r"HashMap(<.*>)?::(insert|remove)$") if ".substreams" in fn.recv(c)]
+        if not touch:
+            continue
+        ctx.bodies.add((fx.cfg, key))
+        purge = [c.node for c in fn.calls() if not c.from_macro and (it.classify_call(fn, c, 3) == ("hit",))]
+        for i, c in enumerate(touch):
+            n += 1
+            ok = bool(purge) and c.node not in fn.reach([fn.entry], avoid=purge)
+            ctx.ob("R11.12", "%s/%s#%d-purges-unreported-results-of-the-key-first" % (short(key), c.name.rsplit("::", 1)[-1], i), ok, site=fn.site(c.node), cfg=fx.cfg,
+                   detail="purge calls in this function: %d" % len(purge))
+    ctx.anchor("R11.12", "HandshakeService functions touching `substreams`", n, 5, cfg=fx.cfg)
+
+
 def run(ctx):
     fx = ctx.facts("default")
     r11_6(ctx, fx)
@@ -528,5 +584,11 @@ def run(ctx):
     r11_8(ctx, fx)
     r11_9(ctx, fx)
     r11_10(ctx, fx)
+    r11_11(ctx, fx)
+    r11_12(ctx, fx)
     ctx.assume("arms ending in debug_assert!(false) diverge in the analysed profile and are not exits (stated beliefs of the developers)")
     ctx.assume("a dropped oneshot shutdown sender also wakes the connection task (Receiver resolves with Err), which closes silently")
+    # an open request waiting for its substream must get an outcome when the connection it is opened on dies beside a second one:
+    # R13.8 (stated in rules/C13.py) is evaluated here as well
+    import C13
+    C13.r13_8(ctx, fx)
